@@ -13,13 +13,18 @@ from mc import fsbuild
 
 D = dt.datetime
 # periods: across the year end (doy 365 -> 001, end_year differs), on the leap
-# day, and the day after it (doy 061 only in a leap year)
+# day, the day after it (doy 061 only in a leap year), and an instant (what
+# fileset[t] = data stores)
 PERIODS = [(D(2019, 12, 31, 22, 0), D(2020, 1, 1, 2, 0)),
            (D(2020, 2, 29, 6, 0), D(2020, 2, 29, 12, 0)),
-           (D(2020, 3, 1, 0, 0), D(2020, 3, 1, 6, 0))]
+           (D(2020, 3, 1, 0, 0), D(2020, 3, 1, 6, 0)),
+           (D(2020, 3, 1, 0, 0), D(2020, 3, 1, 0, 0))]
 # what a file can be: (period index, value of the user placeholder {sat})
 SLOTS = [(0, "A"), (1, "A"), (1, "B"), (2, "B")]
+INSTANT = (3, "A")
 PAYLOADS = [{"v": 1, "c": 0}, {"v": 2, "c": 0}]
+# entry a writer adds to the payload when it is called with the option tag=
+TAG = "t"
 
 NAME = "{sat}_{hour}{minute}-{end_hour}{end_minute}.pkl"
 FILESETS = {
@@ -34,11 +39,20 @@ FILESETS = {
            "{end_minute}.pkl",                            # + user placeholder
     "GZ": "gz/{year}/{month}/{day}/" + NAME + ".gz",      # + compression
     "B2": "base2/sub/{year}/{month}/{day}/" + NAME,       # other base dir
+    # no directory placeholders at all
+    "FLAT": "flat/{sat}_{year}{month}{day}T{hour}{minute}-{end_hour}"
+            "{end_minute}.pkl",
+    # another handler (see FORMAT)
+    "J": "json/{year}/{doy}/{sat}_{hour}{minute}-{end_hour}{end_minute}.json",
 }
+# J is a fileset of JSON documents with write_args, read_args and a
+# post_reader of its own; all others hold pickles
+FORMAT = {fsid: "json" if fsid == "J" else "pickle" for fsid in FILESETS}
 # user placeholders a fileset fixes itself (handed to FileSet(placeholder=))
 DEFAULTS = {"USR": {"ver": "v2"}}
 # targets given to move() as a FileSet object; the others as a path string
-OBJECT_TARGETS = ("END", "USR")
+# (a path string means: the source's handler and options)
+OBJECT_TARGETS = ("END", "USR", "J")
 
 # selections: keyword arguments of move()/delete(), and which slots they mean
 SEL_PERIOD = ("2020-02-29", "2020-02-29 18:00")
@@ -48,6 +62,7 @@ SELECTIONS = {
     "filter": lambda slot: slot[1] == "A",
     "nfilter": lambda slot: slot[1] != "A",
     "files": lambda slot: slot in ((0, "A"), (2, "B")),
+    "paths": lambda slot: slot in ((0, "A"), (2, "B")),   # as plain strings
 }
 
 
@@ -65,6 +80,11 @@ def name_of(fsid, slot):
     (t0, t1), sat = PERIODS[slot[0]], slot[1]
     attrs = dict(DEFAULTS.get(fsid, {}), sat=sat)
     return fsbuild.render(FILESETS[fsid], t0, t1, attrs)
+
+
+def target_is_object(src, dst):
+    """A target with another handler can only be given as a FileSet."""
+    return dst in OBJECT_TARGETS or FORMAT[src] != FORMAT[dst]
 
 
 def convert_payload(data):
@@ -89,11 +109,14 @@ def selected(state, fsid, sel):
 def step(state, op):
     """-> (new state, selected paths). Never mutates `state`."""
     kind = op[0]
-    if kind == "w":
-        _, fsid, si, pi = op
+    if kind in ("w", "wo", "wt"):
+        # w: fs[s:e] = data; wo: fs.write(data, name or FileInfo, tag=1);
+        # wt: fs[t] = data
+        fsid, pi = (op[1], op[2]) if kind == "wt" else (op[1], op[3])
+        slot = INSTANT if kind == "wt" else SLOTS[op[2]]
+        content = dict(PAYLOADS[pi], **({TAG: 1} if kind == "wo" else {}))
         new = dict(state)
-        new[name_of(fsid, SLOTS[si])] = File(fsid, SLOTS[si],
-                                             dict(PAYLOADS[pi]))
+        new[name_of(fsid, slot)] = File(fsid, slot, content)
         return new, []
     if kind == "rb":
         return state, []
@@ -119,8 +142,13 @@ def step(state, op):
     raise ValueError(op)
 
 
-def ops():
-    """The operation alphabet (62 operations)."""
+def ops(alphabet="layout"):
+    """The operation alphabets: "layout" (62 operations: targets that change
+    the layout of names and directories) and "forms" (25 operations: the other
+    forms of writing, a target with another handler, conversion in place, a
+    target without directories, deleting by path strings)."""
+    if alphabet == "forms":
+        return forms_ops()
     out = []
     for si in range(len(SLOTS)):
         for pi in range(len(PAYLOADS)):
@@ -150,6 +178,31 @@ def ops():
     return out
 
 
+def forms_ops():
+    out = [("w", "A", 0, 1), ("w", "A", 2, 0),
+           # (fileset, slot, payload, file given as path string / FileInfo)
+           ("wo", "A", 1, 1, "name"), ("wo", "A", 3, 0, "info"),
+           ("wo", "J", 2, 1, "name"),
+           ("wt", "A", 1)]
+    for sel in ("all", "filter"):
+        for copy in (False, True):
+            for conv in ("conv", "call"):
+                out.append(("mv", "A", "J", sel, copy, conv))
+    out.append(("mv", "J", "A", "all", False, "conv"))
+    out.append(("mv", "J", "A", "filter", True, "call"))
+    # target name = source name: conversion in place
+    out.append(("mv", "A", "A", "filter", False, "call"))
+    out.append(("mv", "A", "A", "period", True, "call"))
+    out.append(("mv", "A", "FLAT", "all", False, "raw"))
+    out.append(("mv", "A", "FLAT", "period", True, "raw"))
+    out.append(("mv", "FLAT", "A", "all", False, "raw"))
+    out.append(("del", "A", "paths", False))
+    out.append(("del", "A", "paths", True))
+    out.append(("del", "J", "filter", False))
+    out.append(("rb",))
+    return out
+
+
 def roots():
     """Initial trees: empty, and one file in every slot of A."""
     full = {}
@@ -159,12 +212,12 @@ def roots():
     return {"empty": {}, "full": full}
 
 
-def plan(depth):
+def plan(depth, alphabet="layout"):
     """Breadth-first search over the model with merging of equal trees.
     Returns [(root, history)] - one shortest history for every distinct tree
     reachable in fewer than `depth` operations (these are the states that get
     expanded by every operation), in BFS order."""
-    alphabet = ops()
+    alphabet = ops(alphabet)
     out = []
     for rname, rstate in roots().items():
         seen = {canon(rstate)}
